@@ -87,6 +87,13 @@ class Ctors:
         if self.orient:
             out["float_positive"] = bool(J1.__float__() > 0)
             out["eq12"] = None
+            # the reversed description, and the same curve object turned round in place after its length was queried
+            if [sg.degree for sg in J2.segments] == self.degrees:  # (a degree-reduced piece is judged by its own obligation)
+                Jr = JordanCurve.from_ctrlpoints([list(reversed(s)) for s in reversed(segs)])
+                out["float_reversed_positive"] = bool(Jr.__float__() > 0)
+                out["float_before_invert_positive"] = bool(J2.__float__() > 0)
+                J2.invert()
+                out["float_inverted_positive"] = bool(J2.__float__() > 0)
         out["_segs"] = segs
         return out
 
@@ -102,8 +109,17 @@ class Ctors:
             if key not in out:
                 continue
             sm = out[key]
-            if sm["degrees"] != self.degrees and sorted(sm["degrees"]) != sorted(self.degrees) and sum(sm["degrees"]) < sum(self.degrees):
-                raise core.Intractable("a segment was degree-reduced within the library's 1e-9 tolerance: outside the claim")
+            if sum(sm["degrees"]) < sum(self.degrees):
+                # a piece was degree-reduced (least-squares error below the library's tolerance): its control points cannot be the given ones,
+                # but the pieces must still start and end at the given junctions (to the 1e-9 of the library's point equality) and chain
+                tol = F(1, 10**9)
+                moved = []
+                if sm["nseg"] == len(segs):
+                    for gs, ws in zip(sm["ctrl"], ref):
+                        for g, w in ((gs[0], ws[0]), (gs[-1], ws[-1])):
+                            moved.append(R.zor(g[0] - w[0] > tol, w[0] - g[0] > tol, g[1] - w[1] > tol, w[1] - g[1] > tol))
+                obs.append((f"from_{key}: a degree-reduced piece no longer starts/ends at the given junction (the curve is not closed)", z3.Or(moved) if moved else T, {"degree_reduced": True}))
+                continue
             ok = sm["nseg"] == len(segs) and sm["degrees"] == self.degrees and sm["shared"]
             ok = ok and len(sm["vertices"]) == len(flatv) and all(same_num(g[0], w[0]) and same_num(g[1], w[1]) for g, w in zip(sm["vertices"], flatv))
             ok = ok and all(len(gs) == len(ws) and all(same_num(g[0], w[0]) and same_num(g[1], w[1]) for g, w in zip(gs, ws)) for gs, ws in zip(sm["ctrl"], ref))
@@ -124,11 +140,14 @@ class Ctors:
             touch = [z3.Or([R.zb(_eq(bx[0], p[0])) for p in allp]), z3.Or([R.zb(_eq(bx[2], p[0])) for p in allp]),
                      z3.Or([R.zb(_eq(bx[1], p[1])) for p in allp]), z3.Or([R.zb(_eq(bx[3], p[1])) for p in allp])]
             obs.append((f"from_{key}: box() is not the bounding box of the control points", z3.Not(z3.And(inside + touch)), {}))
-        if self.orient:
+        if self.orient and "float_inverted_positive" in out:
             z = tr.zvars
             zs = chain_from(list(z), self.degrees)
             want = M.chain_moment([([p[0] for p in s], [p[1] for p in s]) for s in zs], 0, 0, M.qz3)
             obs.append(("sign of float(curve) is not the orientation", (want > 0) != z3.BoolVal(out["float_positive"]), {}))
+            obs.append(("sign of float(curve) is not the orientation for the reversed description", (want < 0) != z3.BoolVal(out["float_reversed_positive"]), {}))
+            obs.append(("sign of float(curve) is not the orientation after invert() of a curve whose length was queried before",
+                        z3.Or((want > 0) != z3.BoolVal(out["float_before_invert_positive"]), (want < 0) != z3.BoolVal(out["float_inverted_positive"])), {}))
         return obs
 
     def on_raise(self, exc, func, line):
@@ -145,11 +164,29 @@ class Ctors:
         for s in ref:
             flatv += s[:-1]
         desc = f"degrees {self.degrees} control points {[str(x) for x in xs]}"
+        if name.startswith("sign of float(curve) is not the orientation for the reversed"):
+            want = M.chain_moment([([p[0] for p in s], [p[1] for p in s]) for s in segs], 0, 0, M.qfrac)
+            return (want < 0) != outcome["float_reversed_positive"], desc + f": exact area {want}, float(reversed curve) > 0 is {outcome['float_reversed_positive']}"
+        if name.startswith("sign of float(curve) is not the orientation after invert"):
+            want = M.chain_moment([([p[0] for p in s], [p[1] for p in s]) for s in segs], 0, 0, M.qfrac)
+            bad = (want > 0) != outcome["float_before_invert_positive"] or (want < 0) != outcome["float_inverted_positive"]
+            return bad, desc + f": exact area {want}, float(curve) > 0 is {outcome['float_before_invert_positive']} before and {outcome['float_inverted_positive']} after invert()"
         if name.startswith("sign of float"):
             want = M.chain_moment([([p[0] for p in s], [p[1] for p in s]) for s in segs], 0, 0, M.qfrac)
             return (want > 0) != outcome["float_positive"], desc + f": exact area {want}, float(curve) > 0 is {outcome['float_positive']}"
         key = name[len("from_") : name.index(":")]
         sm = outcome[key]
+        if "degree-reduced piece" in name:
+            tol = F(1, 10**9)
+            bad = []
+            if sm["nseg"] != len(segs):
+                bad.append("number of pieces")
+            else:
+                for k, (gs, ws) in enumerate(zip(sm["ctrl"], ref)):
+                    for g, w in ((gs[0], ws[0]), (gs[-1], ws[-1])):
+                        if abs(val(g[0]) - w[0]) > tol or abs(val(g[1]) - w[1]) > tol:
+                            bad.append(f"piece {k}: ({val(g[0])}, {val(g[1])}) instead of ({w[0]}, {w[1]})")
+            return bool(bad) and sum(sm["degrees"]) < sum(self.degrees), desc + f": {key} reduced the degrees to {sm['degrees']}; " + "; ".join(bad[:2])
         if sum(sm["degrees"]) < sum(self.degrees):
             return False, "degree-reduced"
         if "vertices/segments differ" in name:
@@ -167,7 +204,10 @@ class Ctors:
         return False, "unknown"
 
     def signature(self, name, xs, outcome, exc):
-        return {"name": name.split(":")[-1].strip()[:60]}
+        sig = {"name": name.split(":")[-1].strip()[:60]}
+        if "degree-reduced piece" in name:
+            sig["a_piece_was_degree_reduced"] = True
+        return sig
 
 
 def _eq(a, b):
@@ -234,8 +274,10 @@ def specs(tier):
     out.append(dict(module=Mo, scenario="Ctors", params=dict(degrees=[1, 1, 1], box=True)))
     out.append(dict(module=Mo, scenario="Ctors", params=dict(degrees=[2, 1], box=True)))
     out.append(dict(module=Mo, scenario="Ctors", params=dict(degrees=[1, 1, 1], orient=True)))
+    out.append(dict(module=Mo, scenario="Ctors", params=dict(degrees=[2, 1], orient=True)))
     if tier != "quick":
         out.append(dict(module=Mo, scenario="Ctors", params=dict(degrees=[1, 1, 1, 1], orient=True)))
+        out.append(dict(module=Mo, scenario="Ctors", params=dict(degrees=[1, 2, 1], orient=True)))
     for via in ("segments", "ctrlpoints", "init"):
         for where in (0, 2, 3):  # 3 = the closing junction (last end point -> first start point)
             out.append(dict(module=Mo, scenario="OpenChain", params=dict(poly="square", where=where, via=via)))
